@@ -8,8 +8,9 @@ generate(write) emits
                      SurfaceType / Particle / Lattice values, surface_builder's class table and each class's
                      accepted constant counts
 
-Everything is read from the imported objects (or, for the two tables that only exist as code, from the AST of the
-function), never from a copy kept here.  Sets are sorted so that PYTHONHASHSEED does not change the output.
+Everything is read from the imported objects or, for the tables that only exist as code (the parser of a catch-all
+data card, surface_builder's class choice, the constant-count tests), OBSERVED by running the working tree's code on
+probe cards; never from a copy kept here, never from the shape of a function's source.  Sets are sorted so that PYTHONHASHSEED does not change the output.
 """
 
 import ast
@@ -146,76 +147,121 @@ def gen_grammar():
 
 
 # ----------------------------------------------------------------------------- Registry
-def _parser_prefix_map():
-    """DataInput._load_correct_parser builds PARSER_PREFIX_MAP inside the function: read it from the AST."""
+# Data-card names probed for a special parser.  The list is only a floor: every short word that appears as a string
+# constant anywhere in data_input.py, every PREFIX_MATCHES prefix and every DataLexer keyword is probed as well, so a
+# prefix the code newly treats specially is found wherever and however the code spells its table.
+_DATA_NAME_FLOOR = """m mt mx tr trcl mode imp vol area u lat fill nps ctme f fc e t c fq fm de df em tm cm cf sf fs sd
+fu ft tf sdef si sp sb ds sc ksrc kcode phys cut elpt tmp thtme mgopt nonu awtab xs void pikmt dbcn lost idum rdum
+prdmp ptrac mplot histp rand stop print talnp notrn totnu burn act ext vect fcl wwe wwn wwp wwg wwge mesh esplt tsplt
+pwt dxt dd pd dxc bbrem spabi dm drxs mphys fmesh fmult embed embee embeb embem embtb embtm embde embdf tmesh rmesh
+cmesh smesh cora corb corc ergsh mshmf var unc cosy bfld bflcl field ssw ssr kopts ksen hsrc read""".split()
+
+
+def _data_name_candidates():
+    import re
+
+    from montepy.data_inputs import data_input as di
+    from montepy.data_inputs.data_parser import PREFIX_MATCHES
+    from montepy.input_parser import tokens as T
+
+    cands = set(_DATA_NAME_FLOOR)
+    try:
+        for node in ast.walk(ast.parse(inspect.getsource(di))):
+            if isinstance(node, ast.Constant) and isinstance(node.value, str):
+                cands.add(node.value)
+    except Exception:  # noqa: BLE001  (no source: the floor and the registries remain)
+        pass
+    for c in PREFIX_MATCHES:
+        try:
+            cands.add(c._class_prefix())
+        except Exception:  # noqa: BLE001
+            pass
+    cands |= set(getattr(T.DataLexer, "_KEYWORDS", ()))
+    return sorted({c.lower() for c in cands if isinstance(c, str) and re.fullmatch(r"[A-Za-z*][A-Za-z]{0,7}", c)})
+
+
+def _observed_parser(prefix):
+    """The parser class a catch-all DataInput with this prefix uses, OBSERVED: `DataInput(prefix=p)` is what
+    parse_data builds (without a card nothing is parsed, the parser is only chosen)."""
     from montepy.data_inputs.data_input import DataInput
 
-    src = textwrap.dedent(inspect.getsource(DataInput._load_correct_parser))
-    tree = ast.parse(src)
-    names = {}
+    try:
+        return type(DataInput(prefix=prefix)._parser).__name__
+    except Exception:  # noqa: BLE001
+        pass
+    try:  # the constructor changed: ask the chooser itself
+        o = DataInput.__new__(DataInput)
+        o._load_correct_parser(prefix)
+        return type(o._parser).__name__
+    except Exception as e:  # noqa: BLE001
+        return "unknown:" + type(e).__name__
+
+
+def _parser_prefix_map(default):
+    """(prefix, parser class) for every probed prefix whose catch-all DataInput does NOT use the default parser.
+    Observed on probe objects (since round 7; the first version read a dict literal named PARSER_PREFIX_MAP from the
+    AST of DataInput._load_correct_parser and lost the table when the dict became an if/elif dispatch)."""
     table = []
-    for node in ast.walk(tree):
-        if isinstance(node, ast.Assign) and len(node.targets) == 1 and isinstance(node.targets[0], ast.Name):
-            tgt = node.targets[0].id
-            if isinstance(node.value, ast.Dict) and tgt == "PARSER_PREFIX_MAP":
-                for k, v in zip(node.value.keys, node.value.values):
-                    key = ast.literal_eval(k)
-                    if isinstance(v, ast.Name):
-                        val = names.get(v.id, v.id)
-                    else:
-                        val = ast.unparse(v).split(".")[-1]
-                    table.append((key, val))
-            else:
-                names[tgt] = ast.unparse(node.value).split(".")[-1]
+    for p in _data_name_candidates():
+        got = _observed_parser(p)
+        if got != default:
+            table.append((p, got))
     return table
 
 
-def _surface_builder_table():
-    """surface_builder is an if/elif chain over SurfaceType members: read (member list, class) from the AST."""
+_SURFACE_PROBE_MAX = 20
+
+
+def _surface_observations():
+    """surface_builder OBSERVED on a probe card `1 <mnemonic> 1 2 .. n` for every SurfaceType member and every
+    n in 1.._SURFACE_PROBE_MAX: {mnemonic value: {n: class name | None}} (None = the card was refused)."""
+    from montepy.input_parser.block_type import BlockType
+    from montepy.input_parser.mcnp_input import Input
     from montepy.surfaces import surface_builder as sb
+    from montepy.surfaces.surface_type import SurfaceType
 
-    src = textwrap.dedent(inspect.getsource(sb.surface_builder))
-    fn = ast.parse(src).body[0]
-    rows = []
-    default = None
-
-    def members(test):
-        comp = test.comparators[0]
-        elts = comp.elts if isinstance(comp, (ast.List, ast.Tuple, ast.Set)) else [comp]
-        return [e.attr for e in elts]
-
-    def walk_if(node):
-        nonlocal default
-        cls = node.body[0].value.func.id
-        rows.append((members(node.test), cls))
-        if len(node.orelse) == 1 and isinstance(node.orelse[0], ast.If):
-            walk_if(node.orelse[0])
-        elif node.orelse:
-            v = node.orelse[0].value
-            default = v.id if isinstance(v, ast.Name) else ast.unparse(v)
-
-    for st in fn.body:
-        if isinstance(st, ast.If):
-            walk_if(st)
-    return rows, default
+    obs = {}
+    for m in SurfaceType:
+        row = {}
+        for n in range(1, _SURFACE_PROBE_MAX + 1):
+            try:
+                o = sb.surface_builder(Input([f"1 {m.value} " + " ".join(str(i + 1) for i in range(n))], BlockType.SURFACE))
+                row[n] = type(o).__name__
+            except Exception:  # noqa: BLE001
+                row[n] = None
+        obs[m.value] = row
+    return obs
 
 
-def _accepted_counts(cls):
-    """The constant-count test of a Surface subclass' __init__ (`len(self.surface_constants) != n` /
-    `not in {..}`), from the AST."""
-    src = textwrap.dedent(inspect.getsource(cls.__init__))
-    for node in ast.walk(ast.parse(src)):
-        if isinstance(node, ast.Compare) and isinstance(node.left, ast.Call) and getattr(node.left.func, "id", "") == "len":
-            arg = ast.unparse(node.left.args[0])
-            if "surface_constants" not in arg:
-                continue
-            op = node.ops[0]
-            comp = node.comparators[0]
-            if isinstance(op, ast.NotEq):
-                return [ast.literal_eval(comp)]
-            if isinstance(op, ast.NotIn):
-                return sorted(ast.literal_eval(comp))
-    return None
+def _surface_tables(default):
+    """From the observations: (rows, counts).
+    rows   [(mnemonic values, class)] for the classes other than `default`, grouped by class in SurfaceType order
+           (the groups are disjoint, so the order of the code's tests cannot be seen and does not matter);
+           a mnemonic that never built, or built two classes, goes to the class "unknown".
+    counts [(class, accepted counts)]; [] = every probed count is accepted (no count test).  Mnemonics of one class
+           that disagree give the impossible count [0] (no card has zero constants), which no theorem accepts."""
+    obs = _surface_observations()
+    cls_of = {}
+    for mv, row in obs.items():
+        seen = {c for c in row.values() if c is not None}
+        cls_of[mv] = seen.pop() if len(seen) == 1 else "unknown"
+    groups = {}
+    for mv in obs:
+        groups.setdefault(cls_of[mv], []).append(mv)
+    rows = [(ms, c) for c, ms in groups.items() if c != default]
+    counts = []
+    for c in sorted(groups):
+        per = {tuple(n for n, got in obs[mv].items() if got is not None) for mv in groups[c]}
+        if len(per) != 1:
+            counts.append((c, [0]))
+            continue
+        acc = list(per.pop())
+        if len(acc) == _SURFACE_PROBE_MAX:
+            if c != default:
+                counts.append((c, []))
+        else:
+            counts.append((c, acc if acc else [0]))
+    return rows, counts
 
 
 def gen_registry():
@@ -242,13 +288,15 @@ def gen_registry():
         for c in sorted(PREFIX_MATCHES, key=lambda c: c.__name__)
     ]
     body += f"def prefixMatches : List (String × String × Bool × Nat) := {llist(rows, per_line=1)}\n\n"
-    body += "/-- data_inputs/data_input.py:DataInput._load_correct_parser PARSER_PREFIX_MAP (prefix, parser class) -/\n"
-    rows = [f"({lstr(k)}, {lstr(v)})" for k, v in _parser_prefix_map()]
-    body += f"def parserPrefixMap : List (String × String) := {llist(rows, per_line=1)}\n"
-    body += "/-- the parser of DataInputAbstract (`_parser = DataParser()`) and of the specialised classes -/\n"
     from montepy.data_inputs.data_input import DataInputAbstract
 
-    body += f"def defaultDataParser : String := {lstr(type(DataInputAbstract._parser).__name__)}\n"
+    default_parser = type(DataInputAbstract._parser).__name__
+    body += "/-- data_inputs/data_input.py:DataInput (catch-all): (prefix, parser class) for every probed prefix whose\n"
+    body += "    `DataInput(prefix=p)` does not use the default parser; OBSERVED on probe objects, sorted by prefix -/\n"
+    rows = [f"({lstr(k)}, {lstr(v)})" for k, v in _parser_prefix_map(default_parser)]
+    body += f"def parserPrefixMap : List (String × String) := {llist(rows, per_line=1)}\n"
+    body += "/-- the parser of DataInputAbstract (`_parser = DataParser()`) and of the specialised classes -/\n"
+    body += f"def defaultDataParser : String := {lstr(default_parser)}\n"
     rows = [
         f"({lstr(c.__name__)}, {lstr(type(c._parser).__name__)})" for c in sorted(PREFIX_MATCHES, key=lambda c: c.__name__)
     ]
@@ -263,18 +311,20 @@ def gen_registry():
     body += f"def particleValues : List String := {strs([m.value for m in Particle])}\n"
     body += "/-- data_inputs/lattice.py:Lattice values -/\n"
     body += f"def latticeValues : List Nat := {llist([str(int(m.value)) for m in Lattice])}\n\n"
-    rows, default = _surface_builder_table()
-    body += "/-- surfaces/surface_builder.py:surface_builder: (SurfaceType members, class), in if/elif order; else → default -/\n"
+    from montepy.surfaces.surface import Surface
+
+    default = Surface.__name__
+    rows, counts = _surface_tables(default)
+    body += "/-- surfaces/surface_builder.py:surface_builder OBSERVED on a probe card per mnemonic and constant count:\n"
+    body += "    (SurfaceType values, class built) for every class other than the base class; disjoint groups -/\n"
     body += "def surfaceBuilderTable : List (List String × String) := " + llist(
-        [f"({strs([SurfaceType[m].value for m in ms])}, {lstr(cls)})" for ms, cls in rows], per_line=1
+        [f"({strs(ms)}, {lstr(cls)})" for ms, cls in rows], per_line=1
     ) + "\n"
-    body += f"def surfaceBuilderDefault : String := {lstr('Surface' if default == 'buffer_surface' else str(default))}\n"
-    body += "/-- constant counts each class' __init__ accepts (none = no count test) -/\n"
-    crow = []
-    for cname in sorted({c for _, c in rows}):
-        cls = getattr(sb, cname)
-        cnt = _accepted_counts(cls)
-        crow.append(f"({lstr(cname)}, {llist([str(c) for c in cnt]) if cnt is not None else '[]'})")
+    body += "/-- surfaces/surface.py:Surface, what every other mnemonic is built as -/\n"
+    body += f"def surfaceBuilderDefault : String := {lstr(default)}\n"
+    body += f"/-- constant counts (probed 1..{_SURFACE_PROBE_MAX}) with which a card of the class builds; a class that takes every probed\n"
+    body += "    count is listed with [] (the base class: not listed) -/\n"
+    crow = [f"({lstr(c)}, {llist([str(n) for n in cnt])})" for c, cnt in counts]
     body += f"def surfaceClassCounts : List (String × List Nat) := {llist(crow, per_line=1)}\n"
     body += "\nend MontePyVerif.Gen.Registry\n"
     return body
